@@ -201,7 +201,7 @@ SPECS["C09"] = {
         {"name": "H3-resize-seq", "pkg": "engine/pool", "files": ["pool/c09.go"], "fn": "VerifC09ResizeSeq",
          "what": "a in 1..2 (thorough 1..3) workers, 0..a of them busy with gated tasks plus a backlog of up to 2 queued tasks, then SetWorkerCount(b), SetWorkerCount(c) with b,c symbolic while the gate opens: the pool settles at c workers", "reach": ["settled"],
          "quick": {"params": {"MAXW": 2, "P": 1}, "unwind": 30, "wall_s": 600},
-         "thorough": {"params": {"MAXW": 3, "P": 2}, "unwind": 30, "wall_s": 3000}},
+         "thorough": {"params": {"MAXW": 3, "P": 1}, "unwind": 30, "wall_s": 3000}},
         {"name": "H4-rounds", "pkg": "engine/pool", "files": ["pool/c09.go"], "fn": "VerifC09Rounds",
          "what": "2 rounds of AddTask+WaitAll on one worker (workers woken by an earlier WaitAll broadcast race the next submission)", "reach": ["rounds-done"],
          "quick": {"params": {"W": 1, "R": 2, "P": 3}, "unwind": 30, "wall_s": 600},
